@@ -478,6 +478,17 @@ theorem c07_normalisation_ignores_case (s : List Nat) : normStr (s.map lowerC) =
 
 example : normStr [72, 105, 33] = normStr [104, 105] := by decide   -- "Hi!" ~ "hi"
 
+/-- **Equality does not depend on the argument order**, for all values built from None, bools, ints,
+    floats, (ASCII) strings, classes, objects, lists and tuples, nested to any depth (induction on the
+    size of the two values).  Sets and dicts are compared by mutual approximate containment / exact
+    keys in the code; their symmetry is sampled by the correspondence, not proved. -/
+theorem c07_equality_symmetric (ex : Bool) (d : Int × Nat) (a e : PyVal)
+    (ha : seqOnly a = true) (he : seqOnly e = true) :
+    eqTest ex (some d) a e = eqTest ex (some d) e a :=
+  eqTest_symm_aux ex d _ a e (Nat.le_refl _) ha he
+
+example : seqOnly (.list [.int 1, .tuple [.flt 3 1, .str [97]], .none]) = true := by decide
+
 /-! ## unit_test / assert_group -/
 
 theorem Group.foldl_add (outs : List Outcome) (g : Group) :
